@@ -2,6 +2,8 @@
 """tools/seed3.py <outdir> <first-number> [jobs]: evaluate <outdir>/w*/<PID>-{a,b}/{patch.diff,demo.rs,notes.md} (third and later seeding
 rounds) in parallel scratch worktrees and store the confirmed ones under /verif/seeded/<PID>-<n>, n = first-number, first-number+1."""
 import json, os, shutil, subprocess, sys, glob
+VERIF = os.path.dirname(os.path.dirname(os.path.abspath(__file__)))
+STORE = os.environ.get('SEED_STORE', os.path.join(VERIF, 'seeded'))
 from concurrent.futures import ThreadPoolExecutor
 base, first = sys.argv[1], int(sys.argv[2])
 jobs = int(sys.argv[3]) if len(sys.argv) > 3 else 4
@@ -19,7 +21,7 @@ def one(it):
     feat = dict(os.environ)
     if pid == 'C16' or 'serde' in open(demo).read():
         feat['SEED_FEATURES'] = 'serde'
-    out = subprocess.run(['python3', '/verif/tools/seedrun.py', patch, demo, pid], capture_output=True, text=True, env=feat).stdout
+    out = subprocess.run(['python3', os.path.join(VERIF, 'tools', 'seedrun.py'), patch, demo, pid], capture_output=True, text=True, env=feat).stdout
     try:
         res = json.loads(out[out.index('{'):])
     except ValueError:
@@ -32,7 +34,7 @@ def one(it):
             if l.startswith(('VIOLATION', 'UNDECIDED', 'NOT-VERIFIED')) or (l.startswith('V ') and ' proved ' not in l):
                 lines.append('     ' + l[:230])
     if confirmed:
-        t = '/verif/seeded/%s-%d' % (pid, n)
+        t = os.path.join(STORE, '%s-%d' % (pid, n))
         os.makedirs(t, exist_ok=True)
         shutil.copy(patch, t + '/patch.diff'); shutil.copy(demo, t + '/demo.rs')
         notes = open(d + '/notes.md').read() if os.path.exists(d + '/notes.md') else ''
